@@ -297,6 +297,43 @@ pub fn sparse_large_window_family() -> Vec<(String, ModelSpec)> {
     out
 }
 
+/// F8: EVERY assignment of weights from {-1, 0, +1} to a fixed suffix-related entry set, so that
+/// every exact cancellation between an entry and its suffixes (n-gram vs n-gram, n-gram vs
+/// dictionary word) and every all-zero merged vector occurs; the other families use weights that
+/// cannot cancel by construction.
+pub fn ternary_family(tier: Tier) -> Vec<Built> {
+    use crate::mirror::{NgramData, WordWeightRecord};
+    let mut out = vec![];
+    // (window, char n-grams, dictionary words, type n-grams)
+    let sets: Vec<(u8, Vec<&str>, Vec<&str>, Vec<Vec<u8>>)> = tier.pick(
+        vec![(1, vec!["a", "あa"], vec!["a", "あa"], vec![]), (1, vec![], vec![], vec![vec![2], vec![3, 2], vec![3]]), (2, vec!["a", "あa"], vec![], vec![])],
+        vec![(1, vec!["a", "あa"], vec!["a", "あa"], vec![]), (1, vec![], vec![], vec![vec![2], vec![3, 2], vec![3]]), (2, vec!["a", "あa", "aあa"], vec![], vec![]), (2, vec!["a"], vec!["a", "あa"], vec![]), (2, vec![], vec![], vec![vec![2], vec![3, 2], vec![2, 3, 2]])],
+    );
+    for (si, (w, cs, ds, ts)) in sets.iter().enumerate() {
+        let lens: Vec<usize> = cs.iter().map(|c| 2 * *w as usize + 1 - c.chars().count()).chain(ds.iter().map(|d| d.chars().count() + 1)).chain(ts.iter().map(|t| 2 * *w as usize + 1 - t.len())).collect();
+        let total: usize = lens.iter().sum();
+        for v in gen::vectors(3, total) {
+            let mut it = v.iter().map(|&x| x as i32 - 1);
+            let mut m = ModelSpec { bias: 0, char_window_size: *w, type_window_size: *w, ..Default::default() };
+            for c in cs {
+                let n = 2 * *w as usize + 1 - c.chars().count();
+                m.char_ngram_model.push(NgramData { ngram: c.to_string(), weights: it.by_ref().take(n).collect() });
+            }
+            for d in ds {
+                let n = d.chars().count() + 1;
+                m.dict_model.push(WordWeightRecord { word: d.to_string(), weights: it.by_ref().take(n).collect(), comment: String::new() });
+            }
+            for t in ts {
+                let n = 2 * *w as usize + 1 - t.len();
+                m.type_ngram_model.push(NgramData { ngram: t.clone(), weights: it.by_ref().take(n).collect() });
+            }
+            let code: String = v.iter().map(|&x| ['-', '0', '+'][x as usize]).collect();
+            out.push(Built { spec: m, desc: format!("ternary set={si} w={w} weights={code}") });
+        }
+    }
+    out
+}
+
 /// F3: large windows; single- and two-entry models; long runs.
 fn f3(tier: Tier) -> (Vec<Built>, Vec<Vec<char>>) {
     let mut ms = vec![];
@@ -421,6 +458,13 @@ pub fn run(tier: Tier) -> ! {
     let f7: Vec<Built> = sparse_large_window_family().into_iter().map(|(desc, spec)| Built { spec, desc }).collect();
     fam_counts.insert("F7-sparse-large-window".into(), json!(f7.len()));
     f7.par_iter().for_each(|b| check_model(&chk, b, &texts, true));
+    {
+        let f8 = ternary_family(tier);
+        let t8 = gen::strings(&['a', 'あ'], 1, tier.pick(4, 5));
+        fam_counts.insert("F8-ternary-weights".into(), json!(f8.len()));
+        chk.set("f8_texts", json!(t8.len()));
+        f8.par_iter().enumerate().for_each(|(i, b)| check_model(&chk, b, &t8, i % 16 == 0));
+    }
     let (ms, t3) = f3(tier);
     fam_counts.insert("F3-large-windows".into(), json!(ms.len()));
     chk.set("f3_texts", json!(t3.len()));
